@@ -218,7 +218,42 @@ func concatIdiom(s *Summary) {
 	}
 }
 
+// boolSetMaps: a local map[K]bool into which only the constant true is ever stored is a set: m[k] and "_, ok := m[k]"
+// are the same test.
+func boolSetMaps(s *Summary) {
+	allTrue := map[string]bool{}
+	for _, e := range s.Effects {
+		if e.Kind != "mapupdate" || len(e.Args) != 3 {
+			continue
+		}
+		m := e.Args[0]
+		if m.Op != "sym" || !strings.HasPrefix(m.Val, "makemap#") || !strings.HasSuffix(m.Val, "]bool") {
+			continue
+		}
+		isTrue := e.Args[2].Op == "const" && e.Args[2].Val == "true"
+		if prev, seen := allTrue[m.Val]; seen {
+			allTrue[m.Val] = prev && isTrue
+		} else {
+			allTrue[m.Val] = isTrue
+		}
+	}
+	any := false
+	for _, ok := range allTrue {
+		any = any || ok
+	}
+	if !any {
+		return
+	}
+	s.mapTerms(func(t *Term) *Term {
+		if t.Op == "lookup" && len(t.Args) == 2 && t.Args[0].Op == "sym" && allTrue[t.Args[0].Val] {
+			return &Term{Op: "has", Args: t.Args, Bool: true}
+		}
+		return nil
+	})
+}
+
 func canonicaliseSequences(s *Summary) {
+	boolSetMaps(s)
 	reduceSeqLen(s)
 	reduceSeqLen(s)
 	reduceSeqLen(s)
